@@ -43,7 +43,7 @@ def _fmt_items(fmt: str) -> int:
 def run(ch: Checker) -> None:
     prog = ch.prog
     ce = ConstEval(prog)
-    ch.rule('C16.1', 'every struct.pack/unpack in proxy/http/websocket with a literal format: number of format items = number of values; '
+    ch.rule('C16.1', 'every struct.pack/unpack in proxy/http/websocket with a literal (or table-driven) format: number of format items = number of values; '
                      'for unpack calcsize(format) = width of the slice passed and number of targets', 5)
     ch.rule('C16.2', 'encoder and decoder agree on the length classes: markers 126/127 carry 2/8 extension bytes on both sides; '
                      'encoder thresholds are 126, 1<<16, 1<<64 and the 7-bit class carries the length itself', 4)
@@ -74,7 +74,15 @@ def run(ch: Checker) -> None:
                     try:
                         fmt = ce.eval(mod, c.args[0])
                     except Unknown:
-                        ch.note('struct call with non-literal format skipped: %s' % norm(c)[:60])
+                        tab = _table_lookup(fn, c, prog, ce)
+                        if tab is None:
+                            ch.note('struct call with non-literal format skipped: %s' % norm(c)[:60])
+                            continue
+                        # format and width both come out of one table row selected by the length marker: check every row
+                        for marker, (tfmt, tsize) in sorted(tab.items()):
+                            ok_row = isinstance(tfmt, str) and isinstance(tsize, int) and struct.calcsize(tfmt) == tsize and _fmt_items(tfmt) == 1
+                            ch.check(ok_row, 'C16.1', fn, 'table row %r -> %r' % (marker, (tfmt, tsize)), 'unpack %r: calcsize = %d = width taken from the same row' % (tfmt, tsize),
+                                     'extended-length table row %r: format %r does not describe exactly one field of %r bytes' % (marker, tfmt, tsize), line=c.lineno)
                         continue
                     if isinstance(fmt, bytes):
                         fmt = fmt.decode()
@@ -169,6 +177,17 @@ def run(ch: Checker) -> None:
                     w = _slice_width(sym.value(c.args[1], idx))
                     if w is not None:
                         dec[marker] = w
+    if not dec:
+        # table-driven decoder: `row = TABLE.get(self.payload_length); if row is not None: fmt, size = row; ... unpack(fmt, raw[cur:cur + size])`
+        for c in walk_no_nested(parse.node):
+            if isinstance(c, ast.Call) and attr_chain(c.func) == 'struct.unpack' and len(c.args) == 2:
+                tab = _table_lookup(parse, c, prog, ce)
+                if tab:
+                    for marker, (tfmt, tsize) in tab.items():
+                        if isinstance(marker, int) and isinstance(tsize, int):
+                            dec[marker] = Lin(tsize)
+                    if set(tab) != {126, 127}:
+                        ch.bad('C16.2', parse, 'length table', 'the extended-length table has rows for %s; RFC 6455 has exactly the markers 126 and 127' % sorted(tab, key=repr))
     for marker, want in ((126, 2), (127, 8)):
         if marker not in dec:
             ch.bad('C16.2', parse, 'marker %d' % marker, 'decoder has no branch reading the extended length for marker %d' % marker)
@@ -662,3 +681,43 @@ def _enumerate_pairs(fn: FuncInfo, ivar: str, bvar: str) -> Any:
                     and attr_chain(n.iter.func) == 'enumerate' and len(n.iter.args) == 1:
                 return True
     return None
+
+
+def _table_lookup(fn: FuncInfo, call: ast.Call, prog: Any, ce: ConstEval) -> Optional[Dict[Any, Tuple[Any, Any]]]:
+    """struct.unpack(F, raw[a:a + W]) where, on every path, F and W inline to row[0] / row[1] of one and the same lookup
+    `TABLE.get(self.payload_length)` / `TABLE[self.payload_length]` into a module-level dict of 2-tuples, the lookup being known
+    not None on the path.  -> the evaluated table, else None"""
+    g = cfg_of(fn, prog)
+    table = None
+    for p in fpaths(g):
+        sym = Sym(p)
+        for idx, st in p.stmts():
+            if not any(x is call for x in walk_no_nested(st)):
+                continue
+            f = sym.value(call.args[0], idx)
+            d = sym.value(call.args[1], idx)
+            if not (isinstance(f, ast.Subscript) and ce.try_eval(fn.module, f.slice) == 0):
+                return None
+            row = f.value
+            if isinstance(row, ast.Call) and isinstance(row.func, ast.Attribute) and row.func.attr == 'get' and len(row.args) == 1:
+                tname, key = row.func.value, row.args[0]
+                if allfacts(p, idx).get('%s is None' % norm(row)) is not False:
+                    return None
+            elif isinstance(row, ast.Subscript):
+                tname, key = row.value, row.slice
+            else:
+                return None
+            if not norm(key).endswith('payload_length'):
+                return None
+            w = _slice_width(d)
+            if w is None or norm(d).count(norm(row)) < 1:
+                return None
+            # the width must be row[1] of the same lookup
+            up = d.slice.upper if isinstance(d, ast.Subscript) and isinstance(d.slice, ast.Slice) else None   # type: ignore[union-attr]
+            if up is None or ('%s[1]' % norm(row)) not in norm(up):
+                return None
+            val = ce.try_eval(fn.module, tname)
+            if not (isinstance(val, dict) and val and all(isinstance(v, (tuple, list)) and len(v) == 2 for v in val.values())):
+                return None
+            table = {k: (v[0].decode() if isinstance(v[0], bytes) else v[0], v[1]) for k, v in val.items()}
+    return table
